@@ -177,7 +177,7 @@ func run(tapeJSON json.RawMessage, res *core.Result) {
 	}
 	var logBuf bytes.Buffer
 	opts := []func(*service.Settings){service.DecodePAC(st.DecodePAC)}
-	if st.SkewS != 0 {
+	if st.SkewS != 0 || st.SkewMs != 0 {
 		opts = append(opts, service.MaxClockSkew(skew))
 	}
 	if st.RequireAddr {
